@@ -49,6 +49,9 @@ type C19Sc struct {
 	// Sibling: a second executor / client configured from the same common list plus one stage of its own that must
 	// never run for this chain's requests. 1 = configured after this chain, 2 = before
 	Sibling int `json:"sibling,omitempty"`
+	// Late (server drivers, with Cut): the second registration call happens after the executor has already served a
+	// request; the requests under test come afterwards and must see the whole chain
+	Late bool `json:"late,omitempty"`
 }
 
 func genStage(g *simrt.Tape) StageSc {
@@ -84,6 +87,7 @@ func genC19(g *simrt.Tape, tier string) any {
 	if g.Draw(4) == 0 {
 		sc.Sibling = 1 + g.Draw(2)
 	}
+	sc.Late = sc.Cut > 0 && sc.Driver != "client" && g.Draw(2) == 0
 	return sc
 }
 
@@ -153,6 +157,9 @@ func c19Floor(tier string) []*C19Sc {
 						st[i] = StageSc{Calls: 1 + i%2}
 					}
 					out = append(out, &C19Sc{Driver: d, Stages: st, Requests: 1, Cut: cut, Sibling: sib})
+					if cut > 0 && d != "client" {
+						out = append(out, &C19Sc{Driver: d, Stages: st, Requests: 2, Cut: cut, Sibling: sib, Late: true})
+					}
 				}
 			}
 		}
@@ -397,7 +404,7 @@ func (cr *chainRun) siblingStage() func(next func(context.Context, *kmip.Request
 
 // registerPlan calls use(a, b) for every registration call of the chain under test (one or two calls over the
 // caller-owned list) and sibling(0, k) for the sibling, which shares the first registration call's sub-list.
-func registerPlan(sc *C19Sc, n int, use func(a, b int), sibling func(a, b int)) {
+func registerPlan(sc *C19Sc, n int, use func(a, b int), sibling func(a, b int), late *func()) {
 	cut := sc.Cut
 	if cut > n {
 		cut = n
@@ -410,12 +417,19 @@ func registerPlan(sc *C19Sc, n int, use func(a, b int), sibling func(a, b int)) 
 		sibling(0, first)
 	}
 	use(0, first)
-	if cut > 0 {
-		use(cut, n)
+	rest := func() {
+		if cut > 0 {
+			use(cut, n)
+		}
+		if sc.Sibling == 1 {
+			sibling(0, first)
+		}
 	}
-	if sc.Sibling == 1 {
-		sibling(0, first)
+	if sc.Late && cut > 0 && late != nil {
+		*late = rest
+		return
 	}
+	rest()
 }
 
 func (cr *chainRun) itemStage(i int) kmipserver.BatchItemMiddleware {
@@ -488,6 +502,7 @@ func execC19(x *X, scAny any) {
 	}
 	reqName := func(j int) string { return fmt.Sprintf("q%d.0", j) }
 
+	var lateReg func()
 	switch sc.Driver {
 	case "server-msg":
 		list := make([]kmipserver.Middleware, 0, len(sc.Stages)+4)
@@ -512,7 +527,7 @@ func execC19(x *X, scAny any) {
 				other := kmipserver.NewBatchExecutor()
 				other.Use(list[a:b]...)
 				other.Use(sib)
-			})
+			}, &lateReg)
 	case "server-item":
 		list := make([]kmipserver.BatchItemMiddleware, 0, len(sc.Stages)+4)
 		for i := range programStages(sc.Stages) {
@@ -533,7 +548,7 @@ func execC19(x *X, scAny any) {
 				other := kmipserver.NewBatchExecutor()
 				other.BatchItemUse(list[a:b]...)
 				other.BatchItemUse(sib)
-			})
+			}, &lateReg)
 	}
 	var cl, sibling *kmipclient.Client
 	var cw *clientWorld
@@ -545,7 +560,15 @@ func execC19(x *X, scAny any) {
 			return echoResponse(req)
 		}
 	}
-	ready := sc.Driver != "client"
+	ready := sc.Driver != "client" && lateReg == nil
+	if lateReg != nil {
+		// the executor serves one request with the first part of the chain, then the rest is registered
+		s.Spawn("warm-up", func() {
+			_ = w.exec.HandleRequest(context.Background(), buildRequest(&ReqSc{Version: 4, Items: []ItemSc{{Tok: "y1,ok", NoID: true}}}, "warm"))
+			lateReg()
+			ready = true
+		})
+	}
 	if sc.Driver == "client" {
 		s.Spawn("dial", func() {
 			var mws []kmipclient.Middleware
@@ -582,7 +605,7 @@ func execC19(x *X, scAny any) {
 				func(a, b int) { mine = append(mine, kmipclient.WithMiddlewares(list[a:b]...)) },
 				func(a, b int) {
 					others = append(append([]kmipclient.Option{}, base...), kmipclient.WithMiddlewares(list[a:b]...), kmipclient.WithMiddlewares(sib))
-				})
+				}, nil)
 			dialSibling := func() {
 				if others == nil {
 					return
